@@ -1,5 +1,5 @@
 //! Scenario for C19: twin chaos instances (same cfg and seed), instance A sequential, instance B pipelined.
-use crate::drive::Size;
+use crate::drive::{sibling_traffic, sibling_world, Size};
 use crate::sim::*;
 use serde_json::{json, Value};
 use std::time::Duration;
@@ -50,6 +50,11 @@ fn build(cfg: &Value, sim: &Sim, seed: u64, mode: u64) -> MkFn {
         } else {
             ChaosLayer::builder().latency_rate(lr).min_latency(Duration::from_millis(u("mn"))).max_latency(Duration::from_millis(u("mx"))).seed(seed).build()
         };
+        if mode != 0 {
+            // the twin's layer value also builds a sibling service that sees traffic first: its draws are its own
+            let w2 = sibling_world();
+            let _ = sibling_traffic(layer.layer(Inner::new(&w2)), w2, 3);
+        }
         mkfn!(layer.layer(inner), mode)
     } else {
         let (mn, mx) = (Duration::from_millis(u("mn")), Duration::from_millis(u("mx")));
@@ -79,6 +84,11 @@ fn build(cfg: &Value, sim: &Sim, seed: u64, mode: u64) -> MkFn {
                 .seed(seed)
                 .build()
         };
+        if mode != 0 {
+            // the twin's layer value also builds a sibling service that sees traffic first: its draws are its own
+            let w2 = sibling_world();
+            let _ = sibling_traffic(layer.layer(Inner::new(&w2)), w2, 3);
+        }
         mkfn!(layer.layer(inner), mode)
     }
 }
